@@ -328,6 +328,7 @@ def run_block(block, ctx):
 
 def run_a(block, ctx):
     from annet.annlib.rbparser import syntax
+    from mc.ref import regexgen
     k, w = (3, 4) if ctx.tier == "quick" else (4, 5)
     pats = (patterns(k) + group_patterns(3))[block["i"]::NB]
     rws = rows(w)
@@ -353,6 +354,9 @@ def run_a(block, ctx):
                 ctx.evals += 2 * len(PREFIXES)
                 ctx.extra["reverse_templates_checked"] += 2 * len(PREFIXES)
         check_acl_ordering_reverse(p, short_rows, ctx)
+        syn = regexgen.synth_row(p)
+        if syn is not None:
+            check_ordering_compiled(p, syn[0], ctx)
         if len(ctx.samples) < 2 and matched_keys:
             ctx.sample({"pattern": p, "rows": len(rws), "distinct_keys": len(matched_keys),
                         "example_key": list(sorted(matched_keys)[0])})
